@@ -4,7 +4,7 @@ soup up to the bound and (b) every single-token insertion, deletion and replacem
 the corresponding tag text on dynamic struct types (whole-tag form, parser:"..." form, split over two fields, struct-typed
 field for @@) and calls the real Build under recover + watchdog (B1).  (c) struct shapes (maps, channels, funcs, anonymous,
 recursive, embedded, unexported, untagged ...) must build or fail without panicking."""
-import json, os, random
+import json, os, subprocess, random
 import vlib
 from vlib import Infra, Verdict, log
 
@@ -140,16 +140,32 @@ def run(pid, tier, args):
             if not (counts.get(need, 0) + counts2.get(need, 0)):
                 raise Infra("vacuity: no %s case" % need)
         # (c) struct shapes
-        out = vlib.vh(vhbin, ["shape-run"])
-        must_err = {"no-tags", "empty", "unknown-type", "nested-no-tags", "anon-leftrec", "blank-tag-then-unknown-token", "blank-tag-then-unclosed-group"}
+        # (a fatal crash - e.g. a stack overflow in Build - kills the process: the shape that was running is reported and the
+        # command is run again without it)
+        out, skip = "", []
+        for _attempt in range(8):
+            pr = subprocess.run([vhbin, "shape-run"], stdout=subprocess.PIPE, stderr=subprocess.PIPE, env=dict(vlib.GOENV, VH_SKIP=",".join(skip)), timeout=900)
+            so = pr.stdout.decode("utf8", "replace")
+            out = "\n".join(l for l in so.splitlines() if not l.startswith("BEGIN\t"))
+            if pr.returncode == 0:
+                break
+            begun = [l.split("\t")[1] for l in so.splitlines() if l.startswith("BEGIN\t")]
+            done_ = {l.split("\t")[0] for l in so.splitlines() if not l.startswith("BEGIN\t") and "\t" in l}
+            crashed = [b for b in begun if b not in done_]
+            if not crashed:
+                raise Infra("shape-run failed: %s" % pr.stderr.decode("utf8", "replace")[-500:])
+            skip.append(crashed[-1])
+            v.violation("struct shape %s: Build kills the process (%s)" % (crashed[-1], pr.stderr.decode("utf8", "replace")[:160].replace("\n", " ")),
+                        {"property": pid, "kind": "shape", "shape": crashed[-1], "real": "fatal crash"})
+        must_err = {"no-tags", "empty", "unknown-type", "nested-no-tags", "anon-leftrec", "blank-tag-then-unknown-token", "blank-tag-then-unclosed-group", "ptrptr-struct-scalar", "embedded-pointer-bad-tag"}
         for line in out.splitlines():
             name, res_ = line.split("\t")
-            if res_.startswith("panic") or res_ == "hang" or (name in must_err and res_ != "err") or (name in ("recursive", "embedded", "anon-struct", "anon-rec-string", "supported-targets", "excluded-fields", "embedded-deep", "embedded-3-levels", "embedded-6-levels", "blank-tags-then-fields") and res_ != "ok"):
+            if res_.startswith("panic") or res_ == "hang" or (name in must_err and res_ != "err") or (name in ("recursive", "embedded", "anon-struct", "anon-rec-string", "supported-targets", "excluded-fields", "embedded-deep", "embedded-3-levels", "embedded-6-levels", "blank-tags-then-fields", "ptr-to-slice-recursive", "ptr4-struct") and res_ != "ok"):
                 v.violation("struct shape %s: Build gives %s" % (name, res_), {"property": pid, "kind": "shape", "shape": name, "real": res_})
             v.validated(1)
         v.sample({"soup": lines[len(lines) // 2], "edit_case": lines2[len(lines2) // 2], "format": "id|abstract tokens|class"})
         v.notes["outcomes_by_class"] = {"soups": counts, "edits": counts2}
-        v.notes["family"] = "all token soups <= %d over the 18-symbol tag alphabet (whole-tag, parser:\"...\", split and struct-field forms); %d valid tags x every single-token insertion/deletion/replacement (%d cases); 27 struct shapes (incl. every documented capture target under value / pointer / slice / slice-of-pointer wrappers, and excluded fields)" % (3 if quick else 4, nvalid, len(cases))
+        v.notes["family"] = "all token soups <= %d over the 18-symbol tag alphabet (whole-tag, parser:\"...\", split and struct-field forms); %d valid tags x every single-token insertion/deletion/replacement (%d cases); 33 struct shapes (incl. every documented capture target under value / pointer / slice / slice-of-pointer wrappers, and excluded fields)" % (3 if quick else 4, nvalid, len(cases))
         v.cov["exhaustive"] = True
         v.assumptions += ["left recursion (also a must-error cause) is decided by C08", "MustBuild is demanded for scalar string fields; @@ is exercised on a struct-typed field"]
     return v.finish()
